@@ -107,3 +107,62 @@ M("tp22_send_before_state", ["C08"], "FD: EOM status sent before the state is ad
                                 break"""))
 M("tp21_rcv_index_live", ["C08"], "rcv pass indexes the live dict again (D22 reverted)",
   ("j1939/j1939_21.py", "            buf = self._rcv_buffer.get(bufid)\n", "            buf = self._rcv_buffer[bufid]\n"))
+
+M("tp21_padding_zero", ["C03"], "J1939-21 last packet padded with 0x00",
+  ("j1939/j1939_21.py",
+   """                            else:
+                                while len(data)<7:
+                                    data.append(255)
+                            data.insert(0, package+1)""",
+   """                            else:
+                                while len(data)<7:
+                                    data.append(0)
+                            data.insert(0, package+1)"""))
+M("tp21_pgn_big_endian_symmetric", ["C03"], "TP.CM PGN encoded and decoded big-endian (symmetric)",
+  ("j1939/j1939_21.py", "        pgn = data[5] | (data[6] << 8) | (data[7] << 16)\n", "        pgn = data[7] | (data[6] << 8) | (data[5] << 16)\n"),
+  ("j1939/j1939_21.py",
+   "data = [self.ConnectionMode.RTS, message_size & 0xFF, (message_size >> 8) & 0xFF, num_packets, max_cmdt_packets, pgn_value & 0xFF, (pgn_value >> 8) & 0xFF, (pgn_value >> 16) & 0xFF]",
+   "data = [self.ConnectionMode.RTS, message_size & 0xFF, (message_size >> 8) & 0xFF, num_packets, max_cmdt_packets, (pgn_value >> 16) & 0xFF, (pgn_value >> 8) & 0xFF, pgn_value & 0xFF]"),
+  ("j1939/j1939_21.py",
+   "data = [self.ConnectionMode.CTS, num_packets, next_packet, 0xFF, 0xFF, pgn_value & 0xFF, (pgn_value >> 8) & 0xFF, (pgn_value >> 16) & 0xFF]",
+   "data = [self.ConnectionMode.CTS, num_packets, next_packet, 0xFF, 0xFF, (pgn_value >> 16) & 0xFF, (pgn_value >> 8) & 0xFF, pgn_value & 0xFF]"),
+  ("j1939/j1939_21.py",
+   "data = [self.ConnectionMode.EOM_ACK, message_size & 0xFF, (message_size >> 8) & 0xFF, num_packets, 0xFF, pgn_value & 0xFF, (pgn_value >> 8) & 0xFF, (pgn_value >> 16) & 0xFF]",
+   "data = [self.ConnectionMode.EOM_ACK, message_size & 0xFF, (message_size >> 8) & 0xFF, num_packets, 0xFF, (pgn_value >> 16) & 0xFF, (pgn_value >> 8) & 0xFF, pgn_value & 0xFF]"))
+M("tp22_size_byteorder_symmetric", ["C03"], "FD size field byte order swapped in encoder and decoder",
+  ("j1939/j1939_22.py",
+   "        data[1]  = (  message_size & 0xFF )\n        data[2]  = ( (message_size >> 8)  & 0xFF )\n        data[3]  = ( (message_size >> 16) & 0xFF )",
+   "        data[3]  = (  message_size & 0xFF )\n        data[2]  = ( (message_size >> 8)  & 0xFF )\n        data[1]  = ( (message_size >> 16) & 0xFF )"),
+  ("j1939/j1939_22.py",
+   "        message_size  = (data[1]  & 0xFF) | ((data[2]  & 0xFF) << 8) | ((data[3] & 0xFF)  << 16)",
+   "        message_size  = (data[3]  & 0xFF) | ((data[2]  & 0xFF) << 8) | ((data[1] & 0xFF)  << 16)"))
+M("tp21_eomack_packets_wrong", ["C03"], "EndOfMsgACK reports packets-1",
+  ("j1939/j1939_21.py",
+   "self.__send_tp_eom_ack(dest_address, src_address, self._rcv_buffer[buffer_hash]['message_size'], self._rcv_buffer[buffer_hash]['num_packages'], self._rcv_buffer[buffer_hash]['pgn'])",
+   "self.__send_tp_eom_ack(dest_address, src_address, self._rcv_buffer[buffer_hash]['message_size'], self._rcv_buffer[buffer_hash]['num_packages'] - 1, self._rcv_buffer[buffer_hash]['pgn'])"))
+M("tp22_dt_segment_zero_based_symmetric", ["C03"], "FD segment numbers 0-based in sender and receiver",
+  ("j1939/j1939_22.py", "        data.insert(1,  segment_num & 0xFF)\n", "        segment_num -= 1\n        data.insert(1,  segment_num & 0xFF)\n"),
+  ("j1939/j1939_22.py", "        segment_num = (data[1] & 0xFF) | ((data[2]  & 0xFF) << 8) | ((data[3] & 0xFF)  << 16)\n\n        if segment_num == 0:",
+   "        segment_num = ((data[1] & 0xFF) | ((data[2]  & 0xFF) << 8) | ((data[3] & 0xFF)  << 16)) + 1\n\n        if segment_num == 0:"))
+M("id_priority_shift", ["C03", "C15"], "priority at bit 25",
+  ("j1939/message_id.py", "return (self.priority << 26) | (self.parameter_group_number << 8) | (self.source_address)", "return (self.priority << 25) | (self.parameter_group_number << 8) | (self.source_address)"))
+
+M("tp21_bam_interval_ignored", ["C09"], "BAM packets sent without the interval",
+  ("j1939/j1939_21.py", "                            buf['deadline'] = time.time() + self._minimum_tp_bam_dt_interval\n                            # recalc next wakeup",
+   "                            buf['deadline'] = time.time()\n                            # recalc next wakeup"))
+M("tp21_grant_ignores_rts_limit", ["C09", "C03"], "responder grant ignores the RTS limit",
+  ("j1939/j1939_21.py", "            max_num_packages = min(max_num_packages, num_packages)\n", "            max_num_packages = num_packages\n"))
+M("tp21_hold_ignored", ["C09"], "zero-packet CTS treated as 'continue'",
+  ("j1939/j1939_21.py",
+   "                self._snd_buffer[buffer_hash]['deadline'] = time.time() + self.Timeout.Th\n                self.__job_thread_wakeup()\n                return\n",
+   "                self._snd_buffer[buffer_hash]['deadline'] = time.time() + self.Timeout.Th\n                self.__job_thread_wakeup()\n                num_packages = 1\n"))
+M("tp22_burst_ignores_window", ["C09"], "FD burst loop does not stop at the window end",
+  ("j1939/j1939_22.py", "                            elif package == buf['next_wait_on_cts']:\n                                # wait on next cts\n                                buf['state'] = self.SendBufferState.WAITING_CTS\n                                buf['deadline'] = time.time() + self.Timeout.T3\n                                should_break = True",
+   "                            elif package == buf['next_wait_on_cts'] + 1:\n                                # wait on next cts\n                                buf['state'] = self.SendBufferState.WAITING_CTS\n                                buf['deadline'] = time.time() + self.Timeout.T3\n                                should_break = True"))
+M("tp22_grant_own_max_ignored", ["C09"], "FD responder grant ignores its own maximum",
+  ("j1939/j1939_22.py", "                    'num_segments_max_rec': min(self._max_cmdt_packets, num_segments),", "                    'num_segments_max_rec': num_segments,"))
+M("tp21_rts_interval_first_only", ["C09"], "RTS/CTS minimum interval not applied after a CTS (D21 reverted)",
+  ("j1939/j1939_21.py", "                deadline = max(deadline, self._snd_buffer[buffer_hash].get('last_dt_time', 0) + self._minimum_tp_rts_cts_dt_interval)", "                pass"))
+M("tp22_bam_slow", ["C09"], "FD BAM packets 250 ms apart",
+  ("j1939/j1939_22.py", "                            buf['deadline'] = time.time() + self._minimum_tp_bam_dt_interval\n                            # recalc next wakeup\n                            if next_wakeup > buf['deadline']:\n                                next_wakeup = buf['deadline']\n                        else:\n                            buf['state'] = self.SendBufferState.SENDING_EOM_STATUS",
+   "                            buf['deadline'] = time.time() + self._minimum_tp_bam_dt_interval + 0.24\n                            # recalc next wakeup\n                            if next_wakeup > buf['deadline']:\n                                next_wakeup = buf['deadline']\n                        else:\n                            buf['state'] = self.SendBufferState.SENDING_EOM_STATUS"))
